@@ -193,4 +193,13 @@ theorem add_result_table (r : Ring) (s : Nat) (e : Ex) (hcap : r.exs.length ≠ 
   | none => simp only []; split <;> rfl
   | some x => cases x <;> rfl
 
+/-- The full invariant statement: in every reachable state every series has a well-formed list
+    (acyclic, doubly linked, time non-decreasing, covering exactly the series' occupied slots, delimited
+    by its index entry). Proved below only for the fresh ring (`links_wellformed_new_partial`); the
+    preservation lemmas that exist are in PromProofs/ExemplarsLinks*.lean. On every generated history the
+    differential + judge check its observable consequences (Select output, accept/reject decisions). -/
+def links_wellformed_full : Prop := ∀ r, Reachable r → LinksWF r
+
+theorem links_wellformed_new_partial (c w : Int) : LinksWF (Ring.new c w) := linksWF_new c w
+
 end Prom.C21
